@@ -54,6 +54,18 @@ func genC01(repo string) (string, error) {
 		Calls: set("HasSuffix", "ParseTimestamp", "SubRealTimeByWallClock"), ArgCalls: set("EtcdKVGet"), Assigns: set("maxTSWindow"), Conds: true, Branches: true}); err != nil {
 		return "", err
 	}
+	// the two time differences every comparison of the oracle goes through: wall-clock nanoseconds / milliseconds
+	tm, err := goast.Load(repo, "pkg/typeutil/time.go")
+	if err != nil {
+		return "", err
+	}
+	for _, fn := range []string{"SubRealTimeByWallClock", "SubTSOPhysicalByWallClock"} {
+		src, err := funcBodySrc(tm, "", fn)
+		if err != nil {
+			return "", err
+		}
+		o.sb.WriteString("Definition src_" + fn + " : string := " + goast.Q(src) + ".\n")
+	}
 	eu, err := goast.Load(repo, "pkg/etcdutil/etcdutil.go")
 	if err != nil {
 		return "", err
